@@ -149,12 +149,18 @@ pub async fn real_pair(rt: &TestRt) -> Result<RealPair, String> {
 }
 
 async fn real_pair_once(rt: &TestRt) -> Result<RealPair, String> {
-    let (server_ep, port) = server(rt).await?;
-    let client_ep = client(rt).await?;
+    real_pair_split(rt, rt).await
+}
+
+/// As `real_pair`, with the server endpoint on `srt` and the client endpoint on `crt` (so that one
+/// side's runtime can be stalled without stalling the other).
+pub async fn real_pair_split(srt: &TestRt, crt: &TestRt) -> Result<RealPair, String> {
+    let (server_ep, port) = server(srt).await?;
+    let client_ep = client(crt).await?;
     let sep = server_ep.clone();
-    let st = rt.spawn(async move { accept_session(&sep).await });
+    let st = srt.spawn(async move { accept_session(&sep).await });
     let cep = client_ep.clone();
-    let client = match rt
+    let client = match crt
         .run(async move { connect(&cep, format!("https://127.0.0.1:{port}/")).await })
         .await
     {
